@@ -3,7 +3,7 @@ CONSTANTS
   MaxN = 3
   MaxD = 2
   MaxT = 1
-  Variant = "origin_other_axis"
+  Variant = "center_nonuniform_only"
   Volumes <- VolumesQ
 INVARIANT TypeOK
 INVARIANT AllEqual
